@@ -1207,6 +1207,46 @@ func init() {
 				}
 			}
 		}
+		// … and the same spellings with the offending lexeme LATER in the text (bookkeeping of removed bytes that depends on
+		// the token's role), in the positions an exception can stand
+		for i, e := range tblExceptions {
+			if !thorough() && i%4 != int(seed%4) {
+				continue
+			}
+			for _, suf := range []string{"-or-later", "-or-later+", "+", "-only"} {
+				for _, shape := range []string{"MIT WITH %s AND FOO", "GPL-2.0-only WITH %s OR LicenseRef-", "(Apache-2.0-or-later WITH %s) AND foo-1.0", "MIT WITH %s AND ISC-or-later AND NOT.A.LICENSE", "MIT-or-later+ WITH %s AND DocumentRef-"} {
+					text := fmt.Sprintf(shape, e+suf)
+					kind := "unknown"
+					if strings.HasSuffix(text, "Ref-") {
+						kind = "missing"
+					}
+					if f := c15Check(text, kind, i%3); f != nil {
+						fail(*f)
+					}
+					count("exception_suffix_then_error")
+				}
+			}
+		}
+		// MANY rewrites before the offending lexeme (counters of rewrites / removed bytes in narrow integers)
+		for _, k := range []int{1, 2, 3, 31, 32, 33, 127, 128, 129, 255, 256, 257, 300, scale(520, 1100)} {
+			for _, sps := range [][]string{{"Apache-2.0-or-later"}, {"MIT-or-later+"}, {"Apache-2.0-or-later", "MIT-or-later+", "ISC+", "GPL-2.0-or-later"}, {"Zlib-or-later+", "(BSD-3-Clause-or-later)"}} {
+				parts := make([]string, k)
+				for i := range parts {
+					parts[i] = sps[i%len(sps)]
+				}
+				for _, tail := range []string{"FOO", "LicenseRef-", "foo-2.0 AND MIT"} {
+					text := strings.Join(parts, " OR ") + " OR " + tail
+					kind := "unknown"
+					if tail == "LicenseRef-" {
+						kind = "missing"
+					}
+					if f := c15Check(text, kind, k%3); f != nil {
+						fail(*f)
+					}
+					count("many_rewrites_then_error")
+				}
+			}
+		}
 		// the offending lexeme BETWEEN two occurrences of the same rewritten id
 		for i, id := range append(append([]string{}, tblActive...), tblDeprecated...) {
 			if strings.HasSuffix(id, "+") || (!thorough() && i%6 != int(seed%6)) {
